@@ -294,6 +294,24 @@ PROPS["C13"] = {
     "explanation": "Modes.tla models mode switching step by step (event queue, set-mode / handler (de)registration / snapshot / per-stream reset under the mode lock, the host's three-step stream delivery, the handler's check-read-handle-write loop) and is model-checked for: no request that reaches a node settled in client mode is answered, no inbound stream is still served once settled in client mode, handlers follow the mode, the mode follows the last reachability event and fixed modes never change, with six negative controls; a real DHT node receives reachability events over the host's event bus and inbound streams/requests from a scripted host while its steps towards the host and the datastore are parked and released in chooser-picked order (systematic scenarios explored by DFS over the choice tree, random scenarios under seeded schedules); TLC validates every trace against ModesTrace.tla.",
 }
 
+PROPS["C11"] = {
+    "exhaustive": [
+        {"spec": "Sender.tla", "cfg": "Sender_quick.cfg"},
+        {"spec": "Sender.tla", "cfg": "Sender_thorough.cfg", "tier": "thorough", "timeout": 3000, "heap": "24g"},
+        {"spec": "Sender.tla", "cfg": "Sender_neg_timeout.cfg", "expect": "violation"},
+        {"spec": "Sender.tla", "cfg": "Sender_neg_nolock.cfg", "expect": "violation"},
+        {"spec": "Sender.tla", "cfg": "Sender_neg_cancel.cfg", "expect": "violation"},
+    ],
+    "drivers": [{"test": "TestSender", "trace_spec": "SenderTrace.tla", "trace_cfg": "SenderTrace.cfg", "inv_cfg": {"C11": "SenderTrace_C11.cfg"}}],
+    "assumptions": [
+        "the sender under test is the object returned by IpfsDHT.MessageSender() of a node built with default options (internal/net); streams are in-memory streams of a hand-written host whose NewStream blocks until the schedule grants or refuses it",
+        "the remote is honest about request ids (a reply names the request it answers) but free in timing: now, after the read timeout, never; it may also send garbage, reset or half-close at any point",
+        "time is virtual; the read timeout passes only when the schedule advances the clock",
+        "the one-stream clause is applied to streams opened by calls that started after the last disconnect notification for that peer (a notification replaces the sender object while an exchange of the old one may still be running)",
+    ],
+    "explanation": "Sender.tla models concurrent exchanges with one peer (map lookup, context-aware lock, stream creation, write, read bounded by timeout/context, reset-and-drop on any failure, single retry, disconnect replacing the sender object and invalidating the old one) against a remote that answers any outstanding request at any later time or never, and is model-checked for own-reply, serialization and at most one outstanding request per live stream with three negative controls; the real sender is driven by concurrent SendRequest/SendMessage/OnDisconnect calls with every environment step chosen by DFS (small scenarios) or a seeded chooser; TLC validates the wire-level traces against SenderTrace.tla.",
+}
+
 
 def overlay_file(scratch, name):
     """Writes the -overlay json for an internal-package driver (add-only mappings)."""
@@ -970,7 +988,102 @@ def mut_c13_unanswered(run):
     return None
 
 
+def _c11(run):
+    return "ncalls" in run[0]
+
+
+def mut_c11_crossed(run):
+    if not _c11(run):
+        return None
+    oks = [i for i, ev in enumerate(run) if ev["e"] == "Return" and ev["ok"] and ev["replyto"]]
+    if len(oks) < 2:
+        return None
+    r = copy.deepcopy(run)
+    a, b = oks[0], oks[1]
+    r[a]["replyto"], r[b]["replyto"] = run[b]["replyto"], run[a]["replyto"]
+    return r
+
+
+def mut_c11_late_success(run):
+    # a failed request is reported as a success
+    if not _c11(run):
+        return None
+    kinds = {ev["id"]: ev["kind"] for ev in run if ev["e"] == "Call"}
+    replied = {ev["id"] for ev in run if ev["e"] == "Reply"}
+    for i, ev in enumerate(run):
+        if ev["e"] == "Return" and not ev["ok"] and kinds.get(ev["id"]) == "req" and ev["id"] not in replied:
+            r = copy.deepcopy(run)
+            r[i]["ok"], r[i]["replyto"], r[i]["err"] = True, ev["id"], ""
+            return r
+    return None
+
+
+def mut_c11_pipelined(run):
+    # a second request is read on a stream that still has one outstanding
+    if not _c11(run):
+        return None
+    for i, ev in enumerate(run):
+        if ev["e"] == "Recv" and ev["kind"] == "req":
+            r = copy.deepcopy(run)
+            r.insert(i + 1, {"e": "Recv", "sid": ev["sid"], "id": 9, "kind": "req", "t": ev["t"]})
+            return r
+    return None
+
+
+def mut_c11_reuse(run):
+    # a request is read on a stream after an exchange on it timed out
+    if not _c11(run):
+        return None
+    out = {}
+    for i, ev in enumerate(run):
+        if ev["e"] == "Recv" and ev["kind"] == "req":
+            out[ev["sid"]] = ev["id"]
+        elif ev["e"] == "Reply":
+            out.pop(ev["sid"], None)
+        elif ev["e"] == "Advance" and out:
+            sid = sorted(out)[0]
+            r = copy.deepcopy(run)
+            r.insert(i + 1, {"e": "Reply", "sid": sid, "id": out[sid], "t": ev["t"]})
+            r.insert(i + 2, {"e": "Recv", "sid": sid, "id": 9, "kind": "req", "t": ev["t"]})
+            return r
+    return None
+
+
+def mut_c11_not_reset(run):
+    if not _c11(run):
+        return None
+    failed = set()
+    out = {}
+    for i, ev in enumerate(run):
+        if ev["e"] == "Recv" and ev["kind"] == "req":
+            out[ev["sid"]] = ev["id"]
+        elif ev["e"] == "Reply":
+            out.pop(ev["sid"], None)
+        elif ev["e"] == "Advance":
+            failed |= set(out)
+        elif ev["e"] == "Quiesce":
+            for j, st in enumerate(ev["streams"]):
+                if st["sid"] in failed and st["localreset"]:
+                    r = copy.deepcopy(run)
+                    r[i]["streams"][j]["localreset"] = False
+                    return r
+    return None
+
+
+def mut_c11_two_streams(run):
+    if not _c11(run):
+        return None
+    for i, ev in enumerate(run):
+        if ev["e"] == "StreamOpen" and ev["fresh"]:
+            # is it still open at the next event? insert a second fresh stream right away
+            r = copy.deepcopy(run)
+            r.insert(i + 1, {"e": "StreamOpen", "p": ev["p"], "sid": 39, "fresh": True, "t": ev["t"]})
+            return r
+    return None
+
+
 MUTATIONS = {
+    "C11": [mut_c11_crossed, mut_c11_late_success, mut_c11_pipelined, mut_c11_reuse, mut_c11_not_reset, mut_c11_two_streams],
     "C13": [mut_c13_late_answer, mut_c13_lost_switch, mut_c13_stream_left_open, mut_c13_handlers, mut_c13_unanswered],
     "C10": [mut_c10_crash, mut_c10_hang, mut_c10_foreign_value, mut_c10_cap, mut_c10_beyond, mut_c10_extra],
     "C09": [mut_c09_requester, mut_c09_client_answers, mut_c09_unsorted, mut_c09_omit_nearest, mut_c09_foreign_provider, mut_c09_put_mismatch, mut_c09_dead],
